@@ -269,7 +269,7 @@ int64_t iwatoi2(const char *str, size_t len) {
     str++;
     len--;
   }
-  if (!strcmp(str, "inf")) {
+  if ((len == 3) && !memcmp(str, "inf", 3)) {
     return (INT64_MAX * sign);
   }
   while (len > 0 && *str != '\0') {
